@@ -264,7 +264,12 @@ impl Number {
             Number::Fixnum(num) => num.unsigned_abs().into(),
             Number::Float(num) => num.abs().into(),
             Number::BigInt(num) => num.abs().into(),
-            Number::Rational(num) => num.abs().into(),
+            Number::Rational(num) => match num.numer().checked_abs() {
+                Some(numer) => Rational32::new_raw(numer, *num.denom()).into(),
+                // -i32::MIN does not fit a numerator
+                None if num.is_integer() => (-(*num.numer() as i64)).into(),
+                None => (-(*num.numer() as f64) / *num.denom() as f64).into(),
+            },
         }
     }
 
@@ -289,7 +294,10 @@ impl Number {
             Number::Fixnum(_) => self.clone(),
             Number::Float(num) => num.floor().into(),
             Number::BigInt(_) => self.clone(),
-            Number::Rational(num) => num.floor().into(),
+            // in i64: Ratio::floor overflows on numer - denom
+            Number::Rational(num) => (*num.numer() as i64)
+                .div_euclid(*num.denom() as i64)
+                .into(),
         }
     }
 
@@ -298,7 +306,8 @@ impl Number {
             Number::Fixnum(_) => self.clone(),
             Number::Float(num) => num.ceil().into(),
             Number::BigInt(_) => self.clone(),
-            Number::Rational(num) => num.ceil().into(),
+            // in i64: Ratio::ceil overflows on numer + denom
+            Number::Rational(num) => (-(-(*num.numer() as i64)).div_euclid(*num.denom() as i64)).into(),
         }
     }
 
